@@ -8,6 +8,7 @@
               (alpha <= 1/d resp. alpha <= 1/(d+1), end point included), strictly positive outside;
      closed_near : the same closed forms within 2^-10 .. 2^-50 of the threshold, on both sides;
      closed_shape : monotone, continuous and with the documented end value on the entangled range;
+     wtype  : the W-type ket of a coefficient vector (see WtypeOK);
      bases  : a catalogued family of orthonormal measurement bases (Chebyshev 4PB / 5PB, element-probing eq. 9), returned as one list
               of projectors: the documented number of blocks of d projectors, every projector Hermitian, positive semidefinite of rank
               one (Gram certificate with one column, Sets.tla), mutually orthogonal inside a block, every block resolving the identity. *)
@@ -60,7 +61,19 @@ BasesOK(e) == LET d == e.d  nb == NumBases(e.fn, e.flag) IN
    /\ Len(e.Ps) = nb * d /\ Len(e.As) = nb * d
    /\ \A k \in 1..(nb * d) : /\ Len(e.Ps[k]) = d /\ HermOK(e.Ps[k]) /\ GramOK(e.As[k], e.Ps[k], e.S, 1)
    /\ \A b \in 0..(nb - 1) : LET blk == [k \in 1..d |-> e.Ps[b * d + k]] IN SumOK(blk, e.S) /\ OrthoMatsOK(blk, e.S)
-Valid(e) == CASE e.op = "upbnum" -> UpbNumOK(e) [] e.op = "bases" -> BasesOK(e) [] e.op = "closed_shape" -> ClosedShapeOK(e) [] e.op = "upb" -> UpbOK(e) [] e.op = "closed" -> ClosedOK(e) [] e.op = "closed_near" -> ClosedNearOK(e) [] OTHER -> FALSE
+\* wtype : numqi.state.Wtype(c) for a Gaussian-integer coefficient vector c (any dtype the caller used): the ket of length 2^n whose
+\*         amplitude at the basis state with the single excitation k (index 2^k, k = 0..n-1) is c_k / |c| and zero elsewhere - a POSITIVE
+\*         real multiple of c of unit norm.  Decided on the output rounded at scale S without square roots: cross-ratios, norm, phase.
+IsPow2Idx(i) == \E k \in 0..20 : i = 2^k
+WtypeOK(e) == LET n == Len(e.c)  S == e.S  a == [k \in 1..n |-> e.v[2^(k - 1) + 1]]
+                  L1(z) == IAbs(z[1]) + IAbs(z[2])
+                  ov == FoldLeft(LAMBDA acc, k : GAdd(acc, GMul(a[k], GConj(e.c[k]))), <<0, 0>>, [k \in 1..n |-> k]) IN
+   /\ Len(e.v) = 2^n
+   /\ \A i \in 1..Len(e.v) : IsPow2Idx(i - 1) \/ Near(e.v[i], <<0, 0>>, 1)
+   /\ \A j, k \in 1..n : Near(GMul(a[j], e.c[k]), GMul(a[k], e.c[j]), 2 * (L1(e.c[j]) + L1(e.c[k])))       \* a is proportional to c
+   /\ IAbs(Norm2(a) - S * S) <= Tol2(S)                                                                   \* unit norm
+   /\ ov[1] > 0 /\ IAbs(ov[2]) <= 2 * FoldLeft(LAMBDA acc, k : acc + L1(e.c[k]), 0, [k \in 1..n |-> k])   \* positive real factor
+Valid(e) == CASE e.op = "wtype" -> WtypeOK(e) [] e.op = "upbnum" -> UpbNumOK(e) [] e.op = "bases" -> BasesOK(e) [] e.op = "closed_shape" -> ClosedShapeOK(e) [] e.op = "upb" -> UpbOK(e) [] e.op = "closed" -> ClosedOK(e) [] e.op = "closed_near" -> ClosedNearOK(e) [] OTHER -> FALSE
 Init == l = 1 /\ TLCSet(1, 0)
 Next == /\ l <= Len(Events)
         /\ IF Valid(Events[l]) THEN TLCSet(1, TLCGet(1) + 1) ELSE PrintT(<<"REJECT", l, Events[l].op>>)
